@@ -10,7 +10,7 @@ import re
 from . import common as C
 from .simengine import lockstep, monitors, sweep, world as W
 
-LOCKSTEP_FAMILIES = {"concurrent", "respawn", "saturate", "mixed", "notimeout", "contain", "crash", "kill", "init", "leak", "break", "graceful", "timeouts"}
+LOCKSTEP_FAMILIES = {"cancelshut", "concurrent", "respawn", "saturate", "mixed", "notimeout", "contain", "crash", "kill", "init", "leak", "break", "graceful", "timeouts"}
 
 
 def _sig(rec):
